@@ -1,11 +1,11 @@
 SPECIFICATION Spec
 CONSTANTS
-  Admission = TRUE
+  Admission = FALSE
   Clusters = {"a", "b"}
   Aliases = {"x", "y"}
-  Variant = "lister"
+  Variant = "dropstale"
   MaxEvents = 5
 VIEW View
-INVARIANT Converged
+INVARIANTS DeletedStop TableAgrees
 PROPERTY NoCapture
 CHECK_DEADLOCK FALSE
